@@ -167,7 +167,8 @@ def generate(rng, prop, tier):
         # a long-lived table whose row count is about to pass a round number while the clients run
         pre.append({'op': 'pre', 'k': 'keyH', 'v': 'init-h'})
         history = rng.choice([1000, 1000, 512, 2000]) - len(pre) - rng.randint(1, 3)
-    return {'engine': 'racesim', 'prop': prop, 'backend': B.with_link(rng, label, B.config(label, B.odd_name(rng, label, 'r0')), 0.12), 'ops': pre,
+    return {'engine': 'racesim', 'prop': prop, 'backend': B.with_link(rng, label, B.config(label, B.odd_name(rng, label, 'r0')),
+                                                                       0.3 if label.startswith('file') else 0.12), 'ops': pre,
             'history': history,
             'skew': [rng.weighted([(6, 0), (2, 90), (1, 3600), (1, -3600)]) for _ in clients],
             # a stalled client: once it is about to commit (sqlite) / rename its staging directory into place (dir)
@@ -386,7 +387,7 @@ def run_schedule(case, root, rng, max_steps=6000):
                     stalled = None
                 unblocked = [x for x in runnable if last_kind[x] != 'sql-blocked'] or runnable
                 stay = case.get('sticky', 0.5)
-                if cur in unblocked and last_kind[cur] in ('unlink', 'rmdir', 'rename', 'sql-dml', 'sql-script'):
+                if cur in unblocked and last_kind[cur] in ('unlink', 'rmdir', 'rename', 'sql-dml', 'sql-script', 'truncated'):
                     stay = 0.25      # in-flight state exists right after these: prefer a context switch
                 if cur in unblocked and rng.chance(stay):
                     c = cur
